@@ -53,6 +53,11 @@ VARIANTS = [
     ("dump-before-loop-filter-ge", F, ["C17"], [(IP, "if len(bits) == self.length", "if len(bits) >= self.length - 1")]),
     ("dump-only-v4", F, ["C17"], [(AF, "            file_anonymizer.anonymizer6.dump_to_file(f_out)\n", "")]),
     ("dump-swapped-columns", F, ["C17"], [(IP, 'file_out.write("{}\\t{}\\n".format(ip, anon))', 'file_out.write("{}\\t{}\\n".format(anon, ip))')]),
+    ("mask-includes-top-transition", F, ["C05"], [(IP, "(possible_mask_int ^ (possible_mask_int >> 1)) & 0x7FFFFFFF", "(possible_mask_int ^ (possible_mask_int >> 1)) & 0xFFFFFFFF")]),
+    ("mask-shift-2", F, ["C05"], [(IP, "(possible_mask_int ^ (possible_mask_int >> 1)) & 0x7FFFFFFF", "(possible_mask_int ^ (possible_mask_int >> 2)) & 0x7FFFFFFF")]),
+    ("mask-idiom-respelled", S, None, [(IP, "return (diff & ((0xFFFFFFFF ^ diff) + 1)) == diff", "return (diff & (diff - 1)) == 0")]),
+    ("closing-brace-not-enclosing", F, ["C09"], [(SI, '_PASSWORD_ENCLOSING_TAIL_TEXT = _PASSWORD_ENCLOSING_TEXT + ["]", "}", ";", ","]', '_PASSWORD_ENCLOSING_TAIL_TEXT = _PASSWORD_ENCLOSING_TEXT + ["]", ";", ","]')]),
+    ("head-strip-one-char", F, ["C09", "C08"], [(SI, "                val = val[len(head_text) :]", "                val = val[1:]")]),
     # ---------------- C06 / C11 ------------------------------------------------------
     ("octet-25-0-4", F, ["C06"], [(IP, '_IPv4_OCTET_PATTERN = r"(25[0-5]|', '_IPv4_OCTET_PATTERN = r"(25[0-4]|')]),
     ("ipv4-enclosing-without-dot", F, ["C06"], [(IP, 'r"[^a-zA-Z0-9.]"  # Match anything but "word" chars (minus underscore) or `.`', 'r"[^a-zA-Z0-9]"  # Match anything but "word" chars (minus underscore) or `.`')]),
